@@ -396,6 +396,19 @@ def byte_class_tables(run, ctx):
                 run.violation(fam, label, "prev_codepoint_ix/unanalysable", H.where(fn), "stop test cannot be extracted (%s)" % ex)
             if bad:
                 run.violation(fam, label, "prev_codepoint_ix/table", H.where(fn), "prev_codepoint_ix stops/continues wrongly on byte 0x%02x (must stop exactly on non-continuation bytes)" % bad[0])
+            # the stop test is the only way out: no iteration bound, no other exit (a 4-byte character needs 4 steps)
+            stop = H.canon(cond)
+            nexit = 0
+            for p in S.paths_of(fn["body"]):
+                if p.exit not in ("fall", "return"):
+                    continue
+                nexit += 1
+                cs = [ev for ev in p.events if ev.kind == "cond"]
+                if not cs or cs[-1].a != stop or cs[-1].b is not True:
+                    run.violation(fam, label, "prev_codepoint_ix/other-exit", H.where(fn), "prev_codepoint_ix can return without having found a non-continuation byte (path: %s): the index could be left inside a character" % p.show()[:160])
+                    break
+            if nexit < 1:
+                run.violation(fam, label, "prev_codepoint_ix/no-exit", H.where(fn), "anchor-missing: no returning path of prev_codepoint_ix")
     for name, want in (("parse::is_digit", lambda b: 0x30 <= b <= 0x39),
                        ("parse::is_hex_digit", lambda b: 0x30 <= b <= 0x39 or 0x41 <= b <= 0x46 or 0x61 <= b <= 0x66)):
         fn = S.get_fn(run, ctx, name, fam, label)
